@@ -12,6 +12,7 @@ C15 clauses: stale wrong missing crash        (kept apart so that a recorded fin
                                                kind can never cover another)
 """
 import copy
+import json
 
 from sim import rng
 from sim.base import BaseCheck
@@ -223,7 +224,7 @@ class GridMachine(BaseCheck):
         ok_mut = 0
         ok_obs_after = 0
         skeleton = [case['class']]
-        orng = rng.stream(rng.derive(repr(case['ops'])[:2000], len(case['ops'])), 'observe')
+        orng = rng.stream(rng.derive(json.dumps(case['ops'], sort_keys=True)), 'observe')   # canonical: key order of a reloaded case differs
         lookup_every = case.get('lookup_every', 1)
 
         def fail(clause, detail):
